@@ -1059,6 +1059,12 @@ def main():
         scen = [s for i, s in enumerate(scen) if (i + seed) % 2 == 0]
     # the class budget is the binding one (deterministic); the wall-clock cap only guards against a loaded machine
     budget = {'classes': int(os.environ.get('P_CLASSES','60')), 'seconds': 400, 'flips_per_trace': int(os.environ.get('P_FLIPS','40'))} if tier == 'quick' else {'classes': 1500, 'seconds': 1800, 'flips_per_trace': 400}
+    # wall-clock guard for the whole property: the scenarios share `jobs` processes, so each gets its share of the
+    # deadline (a scenario stopped by it is reported as not exhaustive, never as a pass of more than it explored)
+    deadline = float(opt('--deadline', '0') or 0)
+    if deadline > 0 and scen:
+        rounds = (len(scen) + jobs - 1) // jobs
+        budget['seconds'] = max(60, min(budget['seconds'], int(deadline / rounds)))
     import multiprocessing as mp
     t0 = time.time()
     with mp.Pool(jobs) as pool:
